@@ -1,5 +1,213 @@
+/-
+C20 — On-demand pull creates, serves and cleans up streams under any camera behaviour.
+Property theorems only; helper lemmas in IpcHub/Lemmas/{Pull,PullRegistry,Registry,RegistryLts}.lean.
+Model: Model/Pull.lean (service/rtsp/pull_client.go, pull_stream_factory.go) composed with the registry
+model of C05 (media/global.go).  Specification: Spec/Pull.lean (a predicate over what is OBSERVED).
+The camera is an adversary: an arbitrary (unbounded) list of response kinds, one per request it
+receives — success with/without Session, 401 with a good / malformed / missing Basic or Digest
+challenge, any other status, malformed bytes, orderly close, reset, silence, truncated body — then an
+arbitrary list of play-phase events.
+-/
 import IpcHub.Model.PullInst
-import IpcHub.Spec.Pull
+import IpcHub.Lemmas.Pull
+import IpcHub.Lemmas.PullRegistry
 namespace IpcHub.Props.C20
-theorem c20_source_facts_wip : IpcHub.Gen.pullFactsUnknown = [] := by decide
+open IpcHub.Pull IpcHub.PullSpec
+
+/-- The source facts the theorems rest on, regenerated from /repo on every run: the order of the
+    handshake steps in Open and its error returns, Open's deferred cleanup (recover, then disconnect on
+    any error), the three send/receive rounds of requestWithResponse with its challenge branches and
+    status test, the read deadline before the handshake's blocking read, the guards of requestSDP /
+    getSetupURL / requestSetup, the order NewStream → `go playStream`, playStream's Regist → counter →
+    loop and its deferred Release → Unregist → disconnect, newRequest's credential/session rules,
+    disconnect, connect's dial timeout, the factory, and the not-found answers of the requesters. -/
+theorem c20_source_facts :
+    IpcHub.Gen.pullFactsUnknown = [] ∧
+    IpcHub.Gen.openCalls = ["c.connect", "c.requestHandshake", "c.requestSDP", "c.requestSetup", "c.requestPlay"] ∧
+    IpcHub.Gen.openErrReturns = 5 ∧
+    IpcHub.Gen.openDeferCalls = ["recover", "fmt.Errorf", "c.disconnect"] ∧
+    IpcHub.Gen.openDeferConds = ["r != nil", "err != nil"] ∧
+    IpcHub.Gen.openRecovers = true ∧
+    IpcHub.Gen.rwrCalls = ["c.request", "c.receiveResponse", "trimSessionString", "resp.DigestAuth", "r.SetDigestAuth",
+      "resp.BasicAuth", "r.SetBasicAuth", "c.request", "c.receiveResponse", "resp.DigestAuth", "r.SetDigestAuth",
+      "resp.BasicAuth", "r.SetBasicAuth", "c.request", "c.receiveResponse"] ∧
+    IpcHub.Gen.rwrConds = ["err != nil", "err != nil", "len(c.rsession) > 0", "resp.StatusCode == StatusUnauthorized",
+      "len(c.userName) == 0",
+      "len(auth) > len(digestAuthPrefix) && strings.EqualFold(auth[:len(digestAuthPrefix)], digestAuthPrefix)", "!ok",
+      "len(auth) > len(basicAuthPrefix) && strings.EqualFold(auth[:len(basicAuthPrefix)], basicAuthPrefix)", "!ok",
+      "err != nil", "err != nil", "resp.StatusCode == StatusUnauthorized",
+      "len(auth) > len(digestAuthPrefix) && strings.EqualFold(auth[:len(digestAuthPrefix)], digestAuthPrefix)", "!ok",
+      "len(auth) > len(basicAuthPrefix) && strings.EqualFold(auth[:len(basicAuthPrefix)], basicAuthPrefix)", "!ok",
+      "err != nil", "err != nil", "!(resp.StatusCode >= 200 && resp.StatusCode <= 300)"] ∧
+    IpcHub.Gen.recvCalls = ["config.NetTimeout", "c.conn.SetReadDeadline", "ReadResponse"] ∧
+    IpcHub.Gen.handshakeDeadline = true ∧
+    IpcHub.Gen.sdpConds = ["err != nil", "err != nil", "len(media.Format) == 0"] ∧
+    IpcHub.Gen.formatGuard = true ∧
+    IpcHub.Gen.setupUrlSafe = true ∧
+    IpcHub.Gen.setupConds = ["len(c.vControl) > 0", "err != nil", "len(c.aControl) > 0", "err != nil"] ∧
+    IpcHub.Gen.setupCalls = ["c.getSetupURL", "c.requestWithResponse", "c.getSetupURL", "c.requestWithResponse"] ∧
+    IpcHub.Gen.requestPlayCalls = ["c.requestWithResponse", "media.NewStream", "go c.playStream"] ∧
+    IpcHub.Gen.playStreamCalls = ["media.Regist", "stats.RtspConns.Add", "config.NetHeartbeatInterval", "config.NetTimeout",
+      "c.conn.SetReadDeadline", "receive", "c.newRequest", "c.request"] ∧
+    IpcHub.Gen.playStreamDefer = ["recover", "stats.RtspConns.Release", "media.Unregist", "c.disconnect"] ∧
+    IpcHub.Gen.playStreamLoopCond = "!c.closed" ∧
+    IpcHub.Gen.playStreamLoopConds = ["timeout > 0", "err != nil", "err != nil", "err == io.EOF", "!c.closed",
+      "heartbeatInterval > 0 && time.Now().Sub(lastHeartbeat) > heartbeatInterval", "err != nil"] ∧
+    IpcHub.Gen.newRequestConds = ["url == nil", "len(c.rsession) > 0", "len(c.realm) > 0", "len(c.md5password) > 0", "len(c.nonce) > 0"] ∧
+    IpcHub.Gen.newRequestCalls = ["r.SetDigestAuth", "r.SetBasicAuth"] ∧
+    IpcHub.Gen.disconnectConds = ["c.closed", "c.conn != nil"] ∧
+    IpcHub.Gen.disconnectCalls = ["c.conn.Close"] ∧
+    IpcHub.Gen.connectCalls = ["config.NetTimeout", "net.DialTimeout", "buffered.NewConn"] ∧
+    IpcHub.Gen.createCalls = ["NewPullClient", "client.Open"] ∧
+    IpcHub.Gen.createConds = ["err != nil", "err != nil"] ∧
+    IpcHub.Gen.describeNotFound = ["stream == nil", "not-found", "return"] ∧
+    IpcHub.Gen.playNotFound = ["stream == nil", "not-found", "return"] ∧
+    IpcHub.Gen.httpFlvNotFound = ["stream == nil", "not-found", "return"] := by
+  decide
+
+/-- the regenerated facts are the ones the property needs -/
+theorem c20_facts_good : genFacts = good := by decide
+
+/-- **Headline: under any camera behaviour the pull satisfies the specification.**  For every route
+    configuration (credentials or not, listening or not, URL with or without path, any SDP kind) and
+    EVERY camera script (unbounded), the model of the current source either fails in a way the
+    specification accepts — the requester gets not-found (never a hang, never a panic), the
+    connection is closed, nothing is registered, the requests seen were in handshake order, credentials
+    were only sent after a challenge and computed from the URL's password, and there was a reason to
+    give up — or it succeeds with the complete ordered handshake, and then for EVERY play-phase event
+    list that ends (EOF, reset, silence until the deadline, garbage, truncated frame, stream closed /
+    replaced on the server side) every packet was delivered and registration, connection counter,
+    connection and consumers are all released. -/
+theorem c20_pull_satisfies_spec (cfg : Cfg) (script : List Resp) :
+    ((openPull genFacts cfg script).outcome = .notFound ∧
+        verdict cfg script (obsOfFail (openPull genFacts cfg script)) = "ok") ∨
+    ((openPull genFacts cfg script).outcome = .stream ∧
+        ∀ evs eff, playStream evs = some eff →
+          verdict cfg script (obsOfPlay (openPull genFacts cfg script) evs eff) = "ok") := by
+  rw [c20_facts_good]; exact good_satisfies_spec cfg script
+
+/-- **Handshake: bounded, ordered, authenticated.**  Open sends at most 3·(3 + tracks) ≤ 15 requests;
+    on success the successfully answered requests are exactly OPTIONS, DESCRIBE, one SETUP per track,
+    PLAY, in this order (on failure: a prefix of it); without credentials in the URL no request carries
+    an Authorization; credentials appear only after a valid challenge and a challenged first attempt is
+    repeated at once with the challenged scheme. -/
+theorem c20_handshake (cfg : Cfg) (script : List Resp) :
+    let r := openPull genFacts cfg script
+    r.reqs.length ≤ 3 * (3 + tracksOf cfg.sdp) ∧
+    (r.outcome = .stream → succeeded script (r.reqs.map seen) = needed cfg) ∧
+    isPrefix (succeeded script (r.reqs.map seen)) (needed cfg) = true ∧
+    (cfg.hasUser = false → ∀ q ∈ r.reqs, q.auth = .none) ∧
+    credsOk script (r.reqs.map seen) = true ∧
+    challengeAnswered cfg script (r.reqs.map seen) = true :=
+  ⟨(openPull_bounded genFacts cfg script).1, openPull_stream_complete genFacts cfg script,
+   openPull_prefix genFacts cfg script, openPull_no_user_no_auth genFacts cfg script,
+   openPull_credsOk genFacts cfg script, openPull_challengeAnswered genFacts cfg script⟩
+
+/-- **Failure cleans up**: whatever the camera does, Open ends (no hang, no panic); if it fails, the
+    connection — if one was made — is closed exactly once and no stream was created, so nothing is
+    registered and no counter was touched. -/
+theorem c20_failure_cleanup (cfg : Cfg) (script : List Resp) :
+    let r := openPull genFacts cfg script
+    (r.outcome = .stream ∨ r.outcome = .notFound) ∧
+    (r.outcome = .notFound →
+      (cfg.listens = true ∧ r.effects = [.dial, .closeConn]) ∨ (cfg.listens = false ∧ r.effects = [] ∧ r.reqs = [])) ∧
+    (r.outcome = .stream → r.effects = [.dial, .newStream]) := by
+  rw [c20_facts_good]
+  exact ⟨openPull_good_outcome cfg script, openPull_notFound_effects good cfg script,
+    fun h => (openPull_stream_effects good cfg script h).1⟩
+
+/-- **Silence is bounded** at every step of the handshake: with the read deadline the source sets, no
+    camera script makes Open hang. -/
+theorem c20_silence_bounded (cfg : Cfg) (script : List Resp) :
+    (openPull genFacts cfg script).outcome ≠ .hang :=
+  openPull_no_hang genFacts cfg script (by decide)
+
+/-- **Play phase cleans up**: for every event list, playStream either is still running (no terminal
+    event yet) or it registered once, counted the connection once, delivered every packet that arrived
+    before the end, and then released the counter, unregistered (which closes the stream and its
+    consumers, C03/C05) and closed the connection — each exactly once, in this order. -/
+theorem c20_play_cleanup (evs : List PlayEv) :
+    (playStream evs = none ↔ ∀ e ∈ evs, terminal e = false) ∧
+    ∀ eff, playStream evs = some eff →
+      (∃ mid, eff = [.regist, .connAdd] ++ mid ++ [.connRelease, .unregist, .closeConn] ∧
+        (∀ e ∈ mid, e = .deliver ∨ e = .keepAlive)) ∧
+      eff.count .regist = 1 ∧ eff.count .connAdd = 1 ∧ eff.count .connRelease = 1 ∧
+      eff.count .unregist = 1 ∧ eff.count .closeConn = 1 ∧
+      (eff.filter (· = .deliver)).length = packetsBefore evs := by
+  refine ⟨playStream_none_iff evs, fun eff h => ?_⟩
+  obtain ⟨mid, h1, h2, _⟩ := playStream_some h
+  have := playStream_once h
+  exact ⟨⟨mid, h1, h2⟩, this⟩
+
+/-- **Concurrent first requests end with one registered stream.**  Two pulls whose handshakes both
+    succeeded register their fresh streams a and b for the same path from their play goroutines; for
+    every interleaving of the two Regist bodies (under the lock the source takes), when both are done
+    exactly one of them owns the path and is live, and the other one is retired: closed at once if it
+    has no consumer (its next packet then ends its play loop: `.closedPacket` is terminal in
+    `c20_play_cleanup`), otherwise watched by a replaced-task that closes it when its consumers are gone. -/
+theorem c20_one_stream (st0 : IpcHub.Registry.State) (hw : IpcHub.Registry.WF st0) (a b : Nat)
+    (sa sb : IpcHub.Registry.Stream)
+    (ha : st0.streams[a]? = some sa) (hb : st0.streams[b]? = some sb) (hpath : sb.path = sa.path)
+    (hoka : sa.status = .ok) (hokb : sb.status = .ok) (hne : a ≠ b)
+    (hfa : IpcHub.Registry.load st0.reg sa.path ≠ some a) (hfb : IpcHub.Registry.load st0.reg sa.path ≠ some b)
+    (sched : List Nat)
+    (hd : IpcHub.RegistryLts.allDone (IpcHub.RegistryLts.runSched true
+            (IpcHub.RegistryLts.initC st0 [.regist a, .regist b]) sched) = true) :
+    let st := (IpcHub.RegistryLts.runSched true (IpcHub.RegistryLts.initC st0 [.regist a, .regist b]) sched).st
+    (IpcHub.Registry.load st.reg sa.path = some b ∧ IpcHub.Registry.isOk st b = true ∧ IpcHub.Registry.retired st a) ∨
+    (IpcHub.Registry.load st.reg sa.path = some a ∧ IpcHub.Registry.isOk st a = true ∧ IpcHub.Registry.retired st b) :=
+  IpcHub.Registry.two_regist_race st0 hw a b sa sb ha hb hpath hoka hokb hne hfa hfb sched hd
+
+/-- the lock assumed by `c20_one_stream` is the one in the source -/
+theorem c20_one_stream_lock_fact :
+    IpcHub.Gen.pullRegistLocked = true ∧
+    IpcHub.Gen.getOrCreateCallsC20 = ["Get", "utils.CanonicalPath", "route.Match", "psf.Can", "psf.Create", "runZeroConsumersCloseTask"] := by decide
+
+/-- Why the facts are needed — the behaviours of the code before the fixes, as theorems about the
+    model with the old facts (witnesses: corpus/C20/handshake-silence.case, open-panic.case): without
+    the handshake deadline a camera that accepts and then stays silent leaves the requester blocked for
+    ever with the connection open; without the recover/guards an SDP section without formats panics
+    through to the requester and skips the cleanup; the specification rejects both. -/
+theorem c20_old_facts_counterexamples :
+    (openPull { good with handshakeDeadline := false }
+        { hasUser := false, listens := true, urlPath := true, sdp := .tracks true true false } [.silence]).outcome = .hang ∧
+    (openPull { good with handshakeDeadline := false }
+        { hasUser := false, listens := true, urlPath := true, sdp := .tracks true true false } [.silence]).effects = [.dial] ∧
+    (openPull { good with openRecovers := false, formatGuard := false }
+        { hasUser := false, listens := true, urlPath := true, sdp := .noFormat } []).outcome = .panic ∧
+    (openPull { good with openRecovers := false, formatGuard := false }
+        { hasUser := false, listens := true, urlPath := true, sdp := .noFormat } []).effects = [.dial] ∧
+    verdict { hasUser := false, listens := true, urlPath := true, sdp := .tracks true true false } [.silence]
+      (obsOfFail (openPull { good with handshakeDeadline := false }
+        { hasUser := false, listens := true, urlPath := true, sdp := .tracks true true false } [.silence])) = "requester-hangs" ∧
+    verdict { hasUser := false, listens := true, urlPath := true, sdp := .noFormat } []
+      (obsOfFail (openPull { good with openRecovers := false, formatGuard := false }
+        { hasUser := false, listens := true, urlPath := true, sdp := .noFormat } [])) = "panic-reaches-requester" := by
+  refine ⟨by decide, by decide, by decide, by decide, defect_verdicts.1, defect_verdicts.2.1⟩
+
+/-! non-vacuity -/
+
+/-- a cooperative camera that challenges with Digest, wants the MD5 of the password on the second
+    attempt, then serves two tracks: the pull succeeds with 7 requests -/
+example :
+    let cfg : Cfg := { hasUser := true, listens := true, urlPath := true, sdp := .tracks true true false }
+    let r := openPull genFacts cfg [.status 401 .digestOk .none, .status 401 .digestOk .none, .status 200 .other .none]
+    r.outcome = .stream ∧ r.reqs.length = 7 ∧ (r.reqs.map (·.md5)) = [false, false, true, true, true, true, true] := by decide
+
+/-- a failing one: reset while waiting for the DESCRIBE answer -/
+example :
+    let cfg : Cfg := { hasUser := false, listens := true, urlPath := true, sdp := .tracks true false false }
+    (openPull genFacts cfg [.status 200 .other .none, .reset]).outcome = .notFound := by decide
+
+/-- a play phase that ends: three packets, a keep-alive, then the camera disappears -/
+example : playStream [.packet, .idle, .packet, .packet, .eof] =
+    some [.regist, .connAdd, .deliver, .deliver, .keepAlive, .deliver, .connRelease, .unregist, .closeConn] := by decide
+
+/-- `c20_one_stream`: its hypotheses are met by two fresh streams on one path and a real schedule -/
+example :
+    let s : IpcHub.Registry.Stream := { path := ['/', 'a'], status := .ok, rtp := [], flv := [], seed := 0, hls := none }
+    let st0 : IpcHub.Registry.State := { streams := [s, s], reg := [], tasks := [], now := 0 }
+    IpcHub.RegistryLts.allDone (IpcHub.RegistryLts.runSched true
+      (IpcHub.RegistryLts.initC st0 [.regist 0, .regist 1]) IpcHub.RegistryLts.pauseSchedule) = true := by decide
+
 end IpcHub.Props.C20
